@@ -1,42 +1,42 @@
 import Cvss.Base.Go
 set_option linter.unusedVariables false
 set_option maxRecDepth 100000
-/-! GENERATED from /repo/40 — do not edit -/
+/-! GENERATED from package 40 — do not edit -/
 namespace GenV40
 
-/-- Get  (/repo/40/cvss40.go:281:1) -/
---   r0 := (cvss40.u0 & 0b11000000) >> 6
---   r1 := (cvss40.u0 & 0b00100000) >> 5
---   r2 := (cvss40.u0 & 0b00010000) >> 4
---   r3 := (cvss40.u0 & 0b00001100) >> 2
---   r4 := cvss40.u0 & 0b00000011
---   r5 := (cvss40.u1 & 0b11000000) >> 6
---   r6 := (cvss40.u1 & 0b00110000) >> 4
---   r7 := (cvss40.u1 & 0b00001100) >> 2
---   r8 := cvss40.u1 & 0b00000011
---   r9 := (cvss40.u2 & 0b11000000) >> 6
---   r10 := (cvss40.u2 & 0b00110000) >> 4
---   r11 := (cvss40.u2 & 0b00001100) >> 2
---   r12 := cvss40.u2 & 0b00000011
---   r13 := (cvss40.u3 & 0b11000000) >> 6
---   r14 := (cvss40.u3 & 0b00110000) >> 4
---   r15 := (cvss40.u3 & 0b00001110) >> 1
---   r16 := ((cvss40.u3 & 0b00000001) << 1) | ((cvss40.u4 & 0b10000000) >> 7)
---   r17 := (cvss40.u4 & 0b01100000) >> 5
---   r18 := (cvss40.u4 & 0b00011000) >> 3
---   r19 := (cvss40.u4 & 0b00000110) >> 1
---   r20 := ((cvss40.u4 & 0b00000001) << 1) | ((cvss40.u5 & 0b10000000) >> 7)
---   r21 := (cvss40.u5 & 0b01100000) >> 5
---   r22 := (cvss40.u5 & 0b00011000) >> 3
---   r23 := (cvss40.u5 & 0b00000110) >> 1
---   r24 := ((cvss40.u5 & 0b00000001) << 2) | ((cvss40.u6 & 0b11000000) >> 6)
---   r25 := (cvss40.u6 & 0b00111000) >> 3
---   r26 := (cvss40.u6 & 0b00000110) >> 1
---   r27 := ((cvss40.u6 & 0b00000001) << 1) | ((cvss40.u7 & 0b10000000) >> 7)
---   r28 := (cvss40.u7 & 0b01100000) >> 5
---   r29 := (cvss40.u7 & 0b00011000) >> 3
---   r30 := (cvss40.u7 & 0b00000110) >> 1
---   r31 := ((cvss40.u7 & 0b00000001) << 2) | ((cvss40.u8 & 0b11000000) >> 6)
+/-- Get  (cvss40.go) -/
+--   r0 := (Nat.shiftRight (Nat.land u0 (192 : Nat)) (6 : Nat))
+--   r1 := (Nat.shiftRight (Nat.land u0 (32 : Nat)) (5 : Nat))
+--   r2 := (Nat.shiftRight (Nat.land u0 (16 : Nat)) (4 : Nat))
+--   r3 := (Nat.shiftRight (Nat.land u0 (12 : Nat)) (2 : Nat))
+--   r4 := (Nat.land u0 (3 : Nat))
+--   r5 := (Nat.shiftRight (Nat.land u1 (192 : Nat)) (6 : Nat))
+--   r6 := (Nat.shiftRight (Nat.land u1 (48 : Nat)) (4 : Nat))
+--   r7 := (Nat.shiftRight (Nat.land u1 (12 : Nat)) (2 : Nat))
+--   r8 := (Nat.land u1 (3 : Nat))
+--   r9 := (Nat.shiftRight (Nat.land u2 (192 : Nat)) (6 : Nat))
+--   r10 := (Nat.shiftRight (Nat.land u2 (48 : Nat)) (4 : Nat))
+--   r11 := (Nat.shiftRight (Nat.land u2 (12 : Nat)) (2 : Nat))
+--   r12 := (Nat.land u2 (3 : Nat))
+--   r13 := (Nat.shiftRight (Nat.land u3 (192 : Nat)) (6 : Nat))
+--   r14 := (Nat.shiftRight (Nat.land u3 (48 : Nat)) (4 : Nat))
+--   r15 := (Nat.shiftRight (Nat.land u3 (14 : Nat)) (1 : Nat))
+--   r16 := (Nat.lor (Nat.mod (Nat.shiftLeft (Nat.land u3 (1 : Nat)) (1 : Nat)) 256) (Nat.shiftRight (Nat.land u4 (128 : Nat)) (7 : Nat)))
+--   r17 := (Nat.shiftRight (Nat.land u4 (96 : Nat)) (5 : Nat))
+--   r18 := (Nat.shiftRight (Nat.land u4 (24 : Nat)) (3 : Nat))
+--   r19 := (Nat.shiftRight (Nat.land u4 (6 : Nat)) (1 : Nat))
+--   r20 := (Nat.lor (Nat.mod (Nat.shiftLeft (Nat.land u4 (1 : Nat)) (1 : Nat)) 256) (Nat.shiftRight (Nat.land u5 (128 : Nat)) (7 : Nat)))
+--   r21 := (Nat.shiftRight (Nat.land u5 (96 : Nat)) (5 : Nat))
+--   r22 := (Nat.shiftRight (Nat.land u5 (24 : Nat)) (3 : Nat))
+--   r23 := (Nat.shiftRight (Nat.land u5 (6 : Nat)) (1 : Nat))
+--   r24 := (Nat.lor (Nat.mod (Nat.shiftLeft (Nat.land u5 (1 : Nat)) (2 : Nat)) 256) (Nat.shiftRight (Nat.land u6 (192 : Nat)) (6 : Nat)))
+--   r25 := (Nat.shiftRight (Nat.land u6 (56 : Nat)) (3 : Nat))
+--   r26 := (Nat.shiftRight (Nat.land u6 (6 : Nat)) (1 : Nat))
+--   r27 := (Nat.lor (Nat.mod (Nat.shiftLeft (Nat.land u6 (1 : Nat)) (1 : Nat)) 256) (Nat.shiftRight (Nat.land u7 (128 : Nat)) (7 : Nat)))
+--   r28 := (Nat.shiftRight (Nat.land u7 (96 : Nat)) (5 : Nat))
+--   r29 := (Nat.shiftRight (Nat.land u7 (24 : Nat)) (3 : Nat))
+--   r30 := (Nat.shiftRight (Nat.land u7 (6 : Nat)) (1 : Nat))
+--   r31 := (Nat.lor (Nat.mod (Nat.shiftLeft (Nat.land u7 (1 : Nat)) (2 : Nat)) 256) (Nat.shiftRight (Nat.land u8 (192 : Nat)) (6 : Nat)))
 def Get_core (r0 : Nat) (r1 : Nat) (r2 : Nat) (r3 : Nat) (r4 : Nat) (r5 : Nat) (r6 : Nat) (r7 : Nat) (r8 : Nat) (r9 : Nat) (r10 : Nat) (r11 : Nat) (r12 : Nat) (r13 : Nat) (r14 : Nat) (r15 : Nat) (r16 : Nat) (r17 : Nat) (r18 : Nat) (r19 : Nat) (r20 : Nat) (r21 : Nat) (r22 : Nat) (r23 : Nat) (r24 : Nat) (r25 : Nat) (r26 : Nat) (r27 : Nat) (r28 : Nat) (r29 : Nat) (r30 : Nat) (r31 : Nat) (abv : (List Nat)) : ((List Nat) × Go.Err) :=
   let r := []
   let err := Go.errNil
@@ -487,7 +487,7 @@ def Get_core (r0 : Nat) (r1 : Nat) (r2 : Nat) (r3 : Nat) (r4 : Nat) (r5 : Nat) (
 def Get (u0 : Nat) (u1 : Nat) (u2 : Nat) (u3 : Nat) (u4 : Nat) (u5 : Nat) (u6 : Nat) (u7 : Nat) (u8 : Nat) (abv : (List Nat)) : ((List Nat) × Go.Err) :=
   Get_core (Nat.shiftRight (Nat.land u0 (192 : Nat)) (6 : Nat)) (Nat.shiftRight (Nat.land u0 (32 : Nat)) (5 : Nat)) (Nat.shiftRight (Nat.land u0 (16 : Nat)) (4 : Nat)) (Nat.shiftRight (Nat.land u0 (12 : Nat)) (2 : Nat)) (Nat.land u0 (3 : Nat)) (Nat.shiftRight (Nat.land u1 (192 : Nat)) (6 : Nat)) (Nat.shiftRight (Nat.land u1 (48 : Nat)) (4 : Nat)) (Nat.shiftRight (Nat.land u1 (12 : Nat)) (2 : Nat)) (Nat.land u1 (3 : Nat)) (Nat.shiftRight (Nat.land u2 (192 : Nat)) (6 : Nat)) (Nat.shiftRight (Nat.land u2 (48 : Nat)) (4 : Nat)) (Nat.shiftRight (Nat.land u2 (12 : Nat)) (2 : Nat)) (Nat.land u2 (3 : Nat)) (Nat.shiftRight (Nat.land u3 (192 : Nat)) (6 : Nat)) (Nat.shiftRight (Nat.land u3 (48 : Nat)) (4 : Nat)) (Nat.shiftRight (Nat.land u3 (14 : Nat)) (1 : Nat)) (Nat.lor (Nat.mod (Nat.shiftLeft (Nat.land u3 (1 : Nat)) (1 : Nat)) 256) (Nat.shiftRight (Nat.land u4 (128 : Nat)) (7 : Nat))) (Nat.shiftRight (Nat.land u4 (96 : Nat)) (5 : Nat)) (Nat.shiftRight (Nat.land u4 (24 : Nat)) (3 : Nat)) (Nat.shiftRight (Nat.land u4 (6 : Nat)) (1 : Nat)) (Nat.lor (Nat.mod (Nat.shiftLeft (Nat.land u4 (1 : Nat)) (1 : Nat)) 256) (Nat.shiftRight (Nat.land u5 (128 : Nat)) (7 : Nat))) (Nat.shiftRight (Nat.land u5 (96 : Nat)) (5 : Nat)) (Nat.shiftRight (Nat.land u5 (24 : Nat)) (3 : Nat)) (Nat.shiftRight (Nat.land u5 (6 : Nat)) (1 : Nat)) (Nat.lor (Nat.mod (Nat.shiftLeft (Nat.land u5 (1 : Nat)) (2 : Nat)) 256) (Nat.shiftRight (Nat.land u6 (192 : Nat)) (6 : Nat))) (Nat.shiftRight (Nat.land u6 (56 : Nat)) (3 : Nat)) (Nat.shiftRight (Nat.land u6 (6 : Nat)) (1 : Nat)) (Nat.lor (Nat.mod (Nat.shiftLeft (Nat.land u6 (1 : Nat)) (1 : Nat)) 256) (Nat.shiftRight (Nat.land u7 (128 : Nat)) (7 : Nat))) (Nat.shiftRight (Nat.land u7 (96 : Nat)) (5 : Nat)) (Nat.shiftRight (Nat.land u7 (24 : Nat)) (3 : Nat)) (Nat.shiftRight (Nat.land u7 (6 : Nat)) (1 : Nat)) (Nat.lor (Nat.mod (Nat.shiftLeft (Nat.land u7 (1 : Nat)) (2 : Nat)) 256) (Nat.shiftRight (Nat.land u8 (192 : Nat)) (6 : Nat))) abv
 
-/-- validate  (/repo/40/cvss40.go:872:1) -/
+/-- validate  (cvss40.go) -/
 def validate (value : (List Nat)) (enabled : (List (List Nat))) : (Nat × Go.Err) :=
   F64.flet (0 : Nat) fun i =>
   let err := Go.errNil
@@ -501,7 +501,7 @@ def validate (value : (List Nat)) (enabled : (List (List Nat))) : (Nat × Go.Err
   | Go.Ctl.next i =>
   ((0 : Nat), (Go.Err.mk 4 []) /- ErrInvalidMetricValue -/)
 
-/-- Set  (/repo/40/cvss40.go:655:1) -/
+/-- Set  (cvss40.go) -/
 def Set (u0 : Nat) (u1 : Nat) (u2 : Nat) (u3 : Nat) (u4 : Nat) (u5 : Nat) (u6 : Nat) (u7 : Nat) (u8 : Nat) (abv : (List Nat)) (value : (List Nat)) : (Nat × Nat × Nat × Nat × Nat × Nat × Nat × Nat × Nat × Go.Err) :=
   cond ((Go.strEq abv ([65, 86] : List Nat) /- AV -/))
     (match (GenV40.validate value [([78] : List Nat) /- N -/, ([65] : List Nat) /- A -/, ([76] : List Nat) /- L -/, ([80] : List Nat) /- P -/]) with
@@ -734,32 +734,32 @@ def Set (u0 : Nat) (u1 : Nat) (u2 : Nat) (u3 : Nat) (u4 : Nat) (u5 : Nat) (u6 : 
       (u0, u1, u2, u3, u4, u5, u6, u7, u8, Go.errNil)))
    ((u0, u1, u2, u3, u4, u5, u6, u7, u8, (Go.Err.mk 101 abv) /- ErrInvalidMetric -/)))))))))))))))))))))))))))))))))
 
-/-- lenVec  (/repo/40/cvss40.go:148:1) -/
---   r0 := cvss40.u2 & 0b00001100
---   r1 := cvss40.u2 & 0b00000011
---   r2 := cvss40.u3 & 0b11000000
---   r3 := cvss40.u3 & 0b00110000
---   r4 := cvss40.u3 & 0b00001110
---   r5 := cvss40.u3 & 0b00000001
---   r6 := cvss40.u4 & 0b10000000
---   r7 := cvss40.u4 & 0b01100000
---   r8 := cvss40.u4 & 0b00011000
---   r9 := cvss40.u4 & 0b00000110
---   r10 := cvss40.u4 & 0b00000001
---   r11 := cvss40.u5 & 0b10000000
---   r12 := cvss40.u5 & 0b01100000
---   r13 := cvss40.u5 & 0b00011000
---   r14 := cvss40.u5 & 0b00000110
---   r15 := cvss40.u5 & 0b00000001
---   r16 := cvss40.u6 & 0b11000000
---   r17 := cvss40.u6 & 0b00111000
---   r18 := cvss40.u6 & 0b00000110
---   r19 := cvss40.u6 & 0b00000001
---   r20 := cvss40.u7 & 0b10000000
---   r21 := cvss40.u7 & 0b01100000
---   r22 := cvss40.u7 & 0b00011000
---   r23 := cvss40.u7 & 0b00000110
---   r24 := ((cvss40.u7 & 0b00000001) << 2) | ((cvss40.u8 & 0b11000000) >> 6)
+/-- lenVec  (cvss40.go) -/
+--   r0 := (Nat.land u2 (12 : Nat))
+--   r1 := (Nat.land u2 (3 : Nat))
+--   r2 := (Nat.land u3 (192 : Nat))
+--   r3 := (Nat.land u3 (48 : Nat))
+--   r4 := (Nat.land u3 (14 : Nat))
+--   r5 := (Nat.land u3 (1 : Nat))
+--   r6 := (Nat.land u4 (128 : Nat))
+--   r7 := (Nat.land u4 (96 : Nat))
+--   r8 := (Nat.land u4 (24 : Nat))
+--   r9 := (Nat.land u4 (6 : Nat))
+--   r10 := (Nat.land u4 (1 : Nat))
+--   r11 := (Nat.land u5 (128 : Nat))
+--   r12 := (Nat.land u5 (96 : Nat))
+--   r13 := (Nat.land u5 (24 : Nat))
+--   r14 := (Nat.land u5 (6 : Nat))
+--   r15 := (Nat.land u5 (1 : Nat))
+--   r16 := (Nat.land u6 (192 : Nat))
+--   r17 := (Nat.land u6 (56 : Nat))
+--   r18 := (Nat.land u6 (6 : Nat))
+--   r19 := (Nat.land u6 (1 : Nat))
+--   r20 := (Nat.land u7 (128 : Nat))
+--   r21 := (Nat.land u7 (96 : Nat))
+--   r22 := (Nat.land u7 (24 : Nat))
+--   r23 := (Nat.land u7 (6 : Nat))
+--   r24 := (Nat.lor (Nat.mod (Nat.shiftLeft (Nat.land u7 (1 : Nat)) (2 : Nat)) 256) (Nat.shiftRight (Nat.land u8 (192 : Nat)) (6 : Nat)))
 def lenVec_core (r0 : Nat) (r1 : Nat) (r2 : Nat) (r3 : Nat) (r4 : Nat) (r5 : Nat) (r6 : Nat) (r7 : Nat) (r8 : Nat) (r9 : Nat) (r10 : Nat) (r11 : Nat) (r12 : Nat) (r13 : Nat) (r14 : Nat) (r15 : Nat) (r16 : Nat) (r17 : Nat) (r18 : Nat) (r19 : Nat) (r20 : Nat) (r21 : Nat) (r22 : Nat) (r23 : Nat) (r24 : Nat) : Nat :=
   F64.flet (63 : Nat) fun l =>
   match (cond (!(Nat.beq r0 (0 : Nat)))
@@ -874,39 +874,39 @@ def lenVec_core (r0 : Nat) (r1 : Nat) (r2 : Nat) (r3 : Nat) (r4 : Nat) (r5 : Nat
 def lenVec (u0 : Nat) (u1 : Nat) (u2 : Nat) (u3 : Nat) (u4 : Nat) (u5 : Nat) (u6 : Nat) (u7 : Nat) (u8 : Nat) : Nat :=
   lenVec_core (Nat.land u2 (12 : Nat)) (Nat.land u2 (3 : Nat)) (Nat.land u3 (192 : Nat)) (Nat.land u3 (48 : Nat)) (Nat.land u3 (14 : Nat)) (Nat.land u3 (1 : Nat)) (Nat.land u4 (128 : Nat)) (Nat.land u4 (96 : Nat)) (Nat.land u4 (24 : Nat)) (Nat.land u4 (6 : Nat)) (Nat.land u4 (1 : Nat)) (Nat.land u5 (128 : Nat)) (Nat.land u5 (96 : Nat)) (Nat.land u5 (24 : Nat)) (Nat.land u5 (6 : Nat)) (Nat.land u5 (1 : Nat)) (Nat.land u6 (192 : Nat)) (Nat.land u6 (56 : Nat)) (Nat.land u6 (6 : Nat)) (Nat.land u6 (1 : Nat)) (Nat.land u7 (128 : Nat)) (Nat.land u7 (96 : Nat)) (Nat.land u7 (24 : Nat)) (Nat.land u7 (6 : Nat)) (Nat.lor (Nat.mod (Nat.shiftLeft (Nat.land u7 (1 : Nat)) (2 : Nat)) 256) (Nat.shiftRight (Nat.land u8 (192 : Nat)) (6 : Nat)))
 
-/-- get  (/repo/40/cvss40.go:884:1) -/
---   r0 := (cvss40.u0 & 0b11000000) >> 6
---   r1 := (cvss40.u0 & 0b00100000) >> 5
---   r2 := (cvss40.u0 & 0b00010000) >> 4
---   r3 := (cvss40.u0 & 0b00001100) >> 2
---   r4 := cvss40.u0 & 0b00000011
---   r5 := (cvss40.u1 & 0b11000000) >> 6
---   r6 := (cvss40.u1 & 0b00110000) >> 4
---   r7 := (cvss40.u1 & 0b00001100) >> 2
---   r8 := cvss40.u1 & 0b00000011
---   r9 := (cvss40.u2 & 0b11000000) >> 6
---   r10 := (cvss40.u2 & 0b00110000) >> 4
---   r11 := (cvss40.u2 & 0b00001100) >> 2
---   r12 := cvss40.u2 & 0b00000011
---   r13 := (cvss40.u3 & 0b11000000) >> 6
---   r14 := (cvss40.u3 & 0b00110000) >> 4
---   r15 := (cvss40.u3 & 0b00001110) >> 1
---   r16 := ((cvss40.u3 & 0b00000001) << 1) | ((cvss40.u4 & 0b10000000) >> 7)
---   r17 := (cvss40.u4 & 0b01100000) >> 5
---   r18 := (cvss40.u4 & 0b00011000) >> 3
---   r19 := (cvss40.u4 & 0b00000110) >> 1
---   r20 := ((cvss40.u4 & 0b00000001) << 1) | ((cvss40.u5 & 0b10000000) >> 7)
---   r21 := (cvss40.u5 & 0b01100000) >> 5
---   r22 := (cvss40.u5 & 0b00011000) >> 3
---   r23 := (cvss40.u5 & 0b00000110) >> 1
---   r24 := ((cvss40.u5 & 0b00000001) << 2) | ((cvss40.u6 & 0b11000000) >> 6)
---   r25 := (cvss40.u6 & 0b00111000) >> 3
---   r26 := (cvss40.u6 & 0b00000110) >> 1
---   r27 := ((cvss40.u6 & 0b00000001) << 1) | ((cvss40.u7 & 0b10000000) >> 7)
---   r28 := (cvss40.u7 & 0b01100000) >> 5
---   r29 := (cvss40.u7 & 0b00011000) >> 3
---   r30 := (cvss40.u7 & 0b00000110) >> 1
---   r31 := ((cvss40.u7 & 0b00000001) << 2) | ((cvss40.u8 & 0b11000000) >> 6)
+/-- get  (cvss40.go) -/
+--   r0 := (Nat.shiftRight (Nat.land u0 (192 : Nat)) (6 : Nat))
+--   r1 := (Nat.shiftRight (Nat.land u0 (32 : Nat)) (5 : Nat))
+--   r2 := (Nat.shiftRight (Nat.land u0 (16 : Nat)) (4 : Nat))
+--   r3 := (Nat.shiftRight (Nat.land u0 (12 : Nat)) (2 : Nat))
+--   r4 := (Nat.land u0 (3 : Nat))
+--   r5 := (Nat.shiftRight (Nat.land u1 (192 : Nat)) (6 : Nat))
+--   r6 := (Nat.shiftRight (Nat.land u1 (48 : Nat)) (4 : Nat))
+--   r7 := (Nat.shiftRight (Nat.land u1 (12 : Nat)) (2 : Nat))
+--   r8 := (Nat.land u1 (3 : Nat))
+--   r9 := (Nat.shiftRight (Nat.land u2 (192 : Nat)) (6 : Nat))
+--   r10 := (Nat.shiftRight (Nat.land u2 (48 : Nat)) (4 : Nat))
+--   r11 := (Nat.shiftRight (Nat.land u2 (12 : Nat)) (2 : Nat))
+--   r12 := (Nat.land u2 (3 : Nat))
+--   r13 := (Nat.shiftRight (Nat.land u3 (192 : Nat)) (6 : Nat))
+--   r14 := (Nat.shiftRight (Nat.land u3 (48 : Nat)) (4 : Nat))
+--   r15 := (Nat.shiftRight (Nat.land u3 (14 : Nat)) (1 : Nat))
+--   r16 := (Nat.lor (Nat.mod (Nat.shiftLeft (Nat.land u3 (1 : Nat)) (1 : Nat)) 256) (Nat.shiftRight (Nat.land u4 (128 : Nat)) (7 : Nat)))
+--   r17 := (Nat.shiftRight (Nat.land u4 (96 : Nat)) (5 : Nat))
+--   r18 := (Nat.shiftRight (Nat.land u4 (24 : Nat)) (3 : Nat))
+--   r19 := (Nat.shiftRight (Nat.land u4 (6 : Nat)) (1 : Nat))
+--   r20 := (Nat.lor (Nat.mod (Nat.shiftLeft (Nat.land u4 (1 : Nat)) (1 : Nat)) 256) (Nat.shiftRight (Nat.land u5 (128 : Nat)) (7 : Nat)))
+--   r21 := (Nat.shiftRight (Nat.land u5 (96 : Nat)) (5 : Nat))
+--   r22 := (Nat.shiftRight (Nat.land u5 (24 : Nat)) (3 : Nat))
+--   r23 := (Nat.shiftRight (Nat.land u5 (6 : Nat)) (1 : Nat))
+--   r24 := (Nat.lor (Nat.mod (Nat.shiftLeft (Nat.land u5 (1 : Nat)) (2 : Nat)) 256) (Nat.shiftRight (Nat.land u6 (192 : Nat)) (6 : Nat)))
+--   r25 := (Nat.shiftRight (Nat.land u6 (56 : Nat)) (3 : Nat))
+--   r26 := (Nat.shiftRight (Nat.land u6 (6 : Nat)) (1 : Nat))
+--   r27 := (Nat.lor (Nat.mod (Nat.shiftLeft (Nat.land u6 (1 : Nat)) (1 : Nat)) 256) (Nat.shiftRight (Nat.land u7 (128 : Nat)) (7 : Nat)))
+--   r28 := (Nat.shiftRight (Nat.land u7 (96 : Nat)) (5 : Nat))
+--   r29 := (Nat.shiftRight (Nat.land u7 (24 : Nat)) (3 : Nat))
+--   r30 := (Nat.shiftRight (Nat.land u7 (6 : Nat)) (1 : Nat))
+--   r31 := (Nat.lor (Nat.mod (Nat.shiftLeft (Nat.land u7 (1 : Nat)) (2 : Nat)) 256) (Nat.shiftRight (Nat.land u8 (192 : Nat)) (6 : Nat)))
 def get_core (r0 : Nat) (r1 : Nat) (r2 : Nat) (r3 : Nat) (r4 : Nat) (r5 : Nat) (r6 : Nat) (r7 : Nat) (r8 : Nat) (r9 : Nat) (r10 : Nat) (r11 : Nat) (r12 : Nat) (r13 : Nat) (r14 : Nat) (r15 : Nat) (r16 : Nat) (r17 : Nat) (r18 : Nat) (r19 : Nat) (r20 : Nat) (r21 : Nat) (r22 : Nat) (r23 : Nat) (r24 : Nat) (r25 : Nat) (r26 : Nat) (r27 : Nat) (r28 : Nat) (r29 : Nat) (r30 : Nat) (r31 : Nat) (abv : (List Nat)) : (List Nat) :=
   match (GenV40.Get_core r0 r1 r2 r3 r4 r5 r6 r7 r8 r9 r10 r11 r12 r13 r14 r15 r16 r17 r18 r19 r20 r21 r22 r23 r24 r25 r26 r27 r28 r29 r30 r31 abv) with
   | (str, _) =>
@@ -915,75 +915,75 @@ def get_core (r0 : Nat) (r1 : Nat) (r2 : Nat) (r3 : Nat) (r4 : Nat) (r5 : Nat) (
 def get (u0 : Nat) (u1 : Nat) (u2 : Nat) (u3 : Nat) (u4 : Nat) (u5 : Nat) (u6 : Nat) (u7 : Nat) (u8 : Nat) (abv : (List Nat)) : (List Nat) :=
   get_core (Nat.shiftRight (Nat.land u0 (192 : Nat)) (6 : Nat)) (Nat.shiftRight (Nat.land u0 (32 : Nat)) (5 : Nat)) (Nat.shiftRight (Nat.land u0 (16 : Nat)) (4 : Nat)) (Nat.shiftRight (Nat.land u0 (12 : Nat)) (2 : Nat)) (Nat.land u0 (3 : Nat)) (Nat.shiftRight (Nat.land u1 (192 : Nat)) (6 : Nat)) (Nat.shiftRight (Nat.land u1 (48 : Nat)) (4 : Nat)) (Nat.shiftRight (Nat.land u1 (12 : Nat)) (2 : Nat)) (Nat.land u1 (3 : Nat)) (Nat.shiftRight (Nat.land u2 (192 : Nat)) (6 : Nat)) (Nat.shiftRight (Nat.land u2 (48 : Nat)) (4 : Nat)) (Nat.shiftRight (Nat.land u2 (12 : Nat)) (2 : Nat)) (Nat.land u2 (3 : Nat)) (Nat.shiftRight (Nat.land u3 (192 : Nat)) (6 : Nat)) (Nat.shiftRight (Nat.land u3 (48 : Nat)) (4 : Nat)) (Nat.shiftRight (Nat.land u3 (14 : Nat)) (1 : Nat)) (Nat.lor (Nat.mod (Nat.shiftLeft (Nat.land u3 (1 : Nat)) (1 : Nat)) 256) (Nat.shiftRight (Nat.land u4 (128 : Nat)) (7 : Nat))) (Nat.shiftRight (Nat.land u4 (96 : Nat)) (5 : Nat)) (Nat.shiftRight (Nat.land u4 (24 : Nat)) (3 : Nat)) (Nat.shiftRight (Nat.land u4 (6 : Nat)) (1 : Nat)) (Nat.lor (Nat.mod (Nat.shiftLeft (Nat.land u4 (1 : Nat)) (1 : Nat)) 256) (Nat.shiftRight (Nat.land u5 (128 : Nat)) (7 : Nat))) (Nat.shiftRight (Nat.land u5 (96 : Nat)) (5 : Nat)) (Nat.shiftRight (Nat.land u5 (24 : Nat)) (3 : Nat)) (Nat.shiftRight (Nat.land u5 (6 : Nat)) (1 : Nat)) (Nat.lor (Nat.mod (Nat.shiftLeft (Nat.land u5 (1 : Nat)) (2 : Nat)) 256) (Nat.shiftRight (Nat.land u6 (192 : Nat)) (6 : Nat))) (Nat.shiftRight (Nat.land u6 (56 : Nat)) (3 : Nat)) (Nat.shiftRight (Nat.land u6 (6 : Nat)) (1 : Nat)) (Nat.lor (Nat.mod (Nat.shiftLeft (Nat.land u6 (1 : Nat)) (1 : Nat)) 256) (Nat.shiftRight (Nat.land u7 (128 : Nat)) (7 : Nat))) (Nat.shiftRight (Nat.land u7 (96 : Nat)) (5 : Nat)) (Nat.shiftRight (Nat.land u7 (24 : Nat)) (3 : Nat)) (Nat.shiftRight (Nat.land u7 (6 : Nat)) (1 : Nat)) (Nat.lor (Nat.mod (Nat.shiftLeft (Nat.land u7 (1 : Nat)) (2 : Nat)) 256) (Nat.shiftRight (Nat.land u8 (192 : Nat)) (6 : Nat))) abv
 
-/-- mandatory  (/repo/40/cvss40.go:262:1) -/
+/-- mandatory  (cvss40.go) -/
 def mandatory (b : (List Nat)) (pre : (List Nat)) (v : (List Nat)) : (List Nat) :=
   let b := (b ++ pre)
   let b := (b ++ v)
   b
 
-/-- notMandatory  (/repo/40/cvss40.go:267:1) -/
+/-- notMandatory  (cvss40.go) -/
 def notMandatory (b : (List Nat)) (pre : (List Nat)) (v : (List Nat)) : (List Nat) :=
   cond (Go.strEq v ([88] : List Nat) /- X -/)
     (b)
     (let b := (GenV40.mandatory b pre v)
     b)
 
-/-- Vector  (/repo/40/cvss40.go:99:1) -/
---   r0 := cvss40.u2 & 0b00001100
---   r1 := cvss40.u2 & 0b00000011
---   r2 := cvss40.u3 & 0b11000000
---   r3 := cvss40.u3 & 0b00110000
---   r4 := cvss40.u3 & 0b00001110
---   r5 := cvss40.u3 & 0b00000001
---   r6 := cvss40.u4 & 0b10000000
---   r7 := cvss40.u4 & 0b01100000
---   r8 := cvss40.u4 & 0b00011000
---   r9 := cvss40.u4 & 0b00000110
---   r10 := cvss40.u4 & 0b00000001
---   r11 := cvss40.u5 & 0b10000000
---   r12 := cvss40.u5 & 0b01100000
---   r13 := cvss40.u5 & 0b00011000
---   r14 := cvss40.u5 & 0b00000110
---   r15 := cvss40.u5 & 0b00000001
---   r16 := cvss40.u6 & 0b11000000
---   r17 := cvss40.u6 & 0b00111000
---   r18 := cvss40.u6 & 0b00000110
---   r19 := cvss40.u6 & 0b00000001
---   r20 := cvss40.u7 & 0b10000000
---   r21 := cvss40.u7 & 0b01100000
---   r22 := cvss40.u7 & 0b00011000
---   r23 := cvss40.u7 & 0b00000110
---   r24 := ((cvss40.u7 & 0b00000001) << 2) | ((cvss40.u8 & 0b11000000) >> 6)
---   r25 := (cvss40.u0 & 0b11000000) >> 6
---   r26 := (cvss40.u0 & 0b00100000) >> 5
---   r27 := (cvss40.u0 & 0b00010000) >> 4
---   r28 := (cvss40.u0 & 0b00001100) >> 2
---   r29 := cvss40.u0 & 0b00000011
---   r30 := (cvss40.u1 & 0b11000000) >> 6
---   r31 := (cvss40.u1 & 0b00110000) >> 4
---   r32 := (cvss40.u1 & 0b00001100) >> 2
---   r33 := cvss40.u1 & 0b00000011
---   r34 := (cvss40.u2 & 0b11000000) >> 6
---   r35 := (cvss40.u2 & 0b00110000) >> 4
---   r36 := (cvss40.u2 & 0b00001100) >> 2
---   r37 := (cvss40.u3 & 0b11000000) >> 6
---   r38 := (cvss40.u3 & 0b00110000) >> 4
---   r39 := (cvss40.u3 & 0b00001110) >> 1
---   r40 := ((cvss40.u3 & 0b00000001) << 1) | ((cvss40.u4 & 0b10000000) >> 7)
---   r41 := (cvss40.u4 & 0b01100000) >> 5
---   r42 := (cvss40.u4 & 0b00011000) >> 3
---   r43 := (cvss40.u4 & 0b00000110) >> 1
---   r44 := ((cvss40.u4 & 0b00000001) << 1) | ((cvss40.u5 & 0b10000000) >> 7)
---   r45 := (cvss40.u5 & 0b01100000) >> 5
---   r46 := (cvss40.u5 & 0b00011000) >> 3
---   r47 := (cvss40.u5 & 0b00000110) >> 1
---   r48 := ((cvss40.u5 & 0b00000001) << 2) | ((cvss40.u6 & 0b11000000) >> 6)
---   r49 := (cvss40.u6 & 0b00111000) >> 3
---   r50 := (cvss40.u6 & 0b00000110) >> 1
---   r51 := ((cvss40.u6 & 0b00000001) << 1) | ((cvss40.u7 & 0b10000000) >> 7)
---   r52 := (cvss40.u7 & 0b01100000) >> 5
---   r53 := (cvss40.u7 & 0b00011000) >> 3
---   r54 := (cvss40.u7 & 0b00000110) >> 1
+/-- Vector  (cvss40.go) -/
+--   r0 := (Nat.land u2 (12 : Nat))
+--   r1 := (Nat.land u2 (3 : Nat))
+--   r2 := (Nat.land u3 (192 : Nat))
+--   r3 := (Nat.land u3 (48 : Nat))
+--   r4 := (Nat.land u3 (14 : Nat))
+--   r5 := (Nat.land u3 (1 : Nat))
+--   r6 := (Nat.land u4 (128 : Nat))
+--   r7 := (Nat.land u4 (96 : Nat))
+--   r8 := (Nat.land u4 (24 : Nat))
+--   r9 := (Nat.land u4 (6 : Nat))
+--   r10 := (Nat.land u4 (1 : Nat))
+--   r11 := (Nat.land u5 (128 : Nat))
+--   r12 := (Nat.land u5 (96 : Nat))
+--   r13 := (Nat.land u5 (24 : Nat))
+--   r14 := (Nat.land u5 (6 : Nat))
+--   r15 := (Nat.land u5 (1 : Nat))
+--   r16 := (Nat.land u6 (192 : Nat))
+--   r17 := (Nat.land u6 (56 : Nat))
+--   r18 := (Nat.land u6 (6 : Nat))
+--   r19 := (Nat.land u6 (1 : Nat))
+--   r20 := (Nat.land u7 (128 : Nat))
+--   r21 := (Nat.land u7 (96 : Nat))
+--   r22 := (Nat.land u7 (24 : Nat))
+--   r23 := (Nat.land u7 (6 : Nat))
+--   r24 := (Nat.lor (Nat.mod (Nat.shiftLeft (Nat.land u7 (1 : Nat)) (2 : Nat)) 256) (Nat.shiftRight (Nat.land u8 (192 : Nat)) (6 : Nat)))
+--   r25 := (Nat.shiftRight (Nat.land u0 (192 : Nat)) (6 : Nat))
+--   r26 := (Nat.shiftRight (Nat.land u0 (32 : Nat)) (5 : Nat))
+--   r27 := (Nat.shiftRight (Nat.land u0 (16 : Nat)) (4 : Nat))
+--   r28 := (Nat.shiftRight (Nat.land u0 (12 : Nat)) (2 : Nat))
+--   r29 := (Nat.land u0 (3 : Nat))
+--   r30 := (Nat.shiftRight (Nat.land u1 (192 : Nat)) (6 : Nat))
+--   r31 := (Nat.shiftRight (Nat.land u1 (48 : Nat)) (4 : Nat))
+--   r32 := (Nat.shiftRight (Nat.land u1 (12 : Nat)) (2 : Nat))
+--   r33 := (Nat.land u1 (3 : Nat))
+--   r34 := (Nat.shiftRight (Nat.land u2 (192 : Nat)) (6 : Nat))
+--   r35 := (Nat.shiftRight (Nat.land u2 (48 : Nat)) (4 : Nat))
+--   r36 := (Nat.shiftRight (Nat.land u2 (12 : Nat)) (2 : Nat))
+--   r37 := (Nat.shiftRight (Nat.land u3 (192 : Nat)) (6 : Nat))
+--   r38 := (Nat.shiftRight (Nat.land u3 (48 : Nat)) (4 : Nat))
+--   r39 := (Nat.shiftRight (Nat.land u3 (14 : Nat)) (1 : Nat))
+--   r40 := (Nat.lor (Nat.mod (Nat.shiftLeft (Nat.land u3 (1 : Nat)) (1 : Nat)) 256) (Nat.shiftRight (Nat.land u4 (128 : Nat)) (7 : Nat)))
+--   r41 := (Nat.shiftRight (Nat.land u4 (96 : Nat)) (5 : Nat))
+--   r42 := (Nat.shiftRight (Nat.land u4 (24 : Nat)) (3 : Nat))
+--   r43 := (Nat.shiftRight (Nat.land u4 (6 : Nat)) (1 : Nat))
+--   r44 := (Nat.lor (Nat.mod (Nat.shiftLeft (Nat.land u4 (1 : Nat)) (1 : Nat)) 256) (Nat.shiftRight (Nat.land u5 (128 : Nat)) (7 : Nat)))
+--   r45 := (Nat.shiftRight (Nat.land u5 (96 : Nat)) (5 : Nat))
+--   r46 := (Nat.shiftRight (Nat.land u5 (24 : Nat)) (3 : Nat))
+--   r47 := (Nat.shiftRight (Nat.land u5 (6 : Nat)) (1 : Nat))
+--   r48 := (Nat.lor (Nat.mod (Nat.shiftLeft (Nat.land u5 (1 : Nat)) (2 : Nat)) 256) (Nat.shiftRight (Nat.land u6 (192 : Nat)) (6 : Nat)))
+--   r49 := (Nat.shiftRight (Nat.land u6 (56 : Nat)) (3 : Nat))
+--   r50 := (Nat.shiftRight (Nat.land u6 (6 : Nat)) (1 : Nat))
+--   r51 := (Nat.lor (Nat.mod (Nat.shiftLeft (Nat.land u6 (1 : Nat)) (1 : Nat)) 256) (Nat.shiftRight (Nat.land u7 (128 : Nat)) (7 : Nat)))
+--   r52 := (Nat.shiftRight (Nat.land u7 (96 : Nat)) (5 : Nat))
+--   r53 := (Nat.shiftRight (Nat.land u7 (24 : Nat)) (3 : Nat))
+--   r54 := (Nat.shiftRight (Nat.land u7 (6 : Nat)) (1 : Nat))
 def Vector_core (r0 : Nat) (r1 : Nat) (r2 : Nat) (r3 : Nat) (r4 : Nat) (r5 : Nat) (r6 : Nat) (r7 : Nat) (r8 : Nat) (r9 : Nat) (r10 : Nat) (r11 : Nat) (r12 : Nat) (r13 : Nat) (r14 : Nat) (r15 : Nat) (r16 : Nat) (r17 : Nat) (r18 : Nat) (r19 : Nat) (r20 : Nat) (r21 : Nat) (r22 : Nat) (r23 : Nat) (r24 : Nat) (r25 : Nat) (r26 : Nat) (r27 : Nat) (r28 : Nat) (r29 : Nat) (r30 : Nat) (r31 : Nat) (r32 : Nat) (r33 : Nat) (r34 : Nat) (r35 : Nat) (r36 : Nat) (r37 : Nat) (r38 : Nat) (r39 : Nat) (r40 : Nat) (r41 : Nat) (r42 : Nat) (r43 : Nat) (r44 : Nat) (r45 : Nat) (r46 : Nat) (r47 : Nat) (r48 : Nat) (r49 : Nat) (r50 : Nat) (r51 : Nat) (r52 : Nat) (r53 : Nat) (r54 : Nat) : (List Nat) :=
   F64.flet (GenV40.lenVec_core r0 r1 r2 r3 r4 r5 r6 r7 r8 r9 r10 r11 r12 r13 r14 r15 r16 r17 r18 r19 r20 r21 r22 r23 r24) fun l =>
   let b := ([] : List Nat)
@@ -1022,42 +1022,50 @@ def Vector_core (r0 : Nat) (r1 : Nat) (r2 : Nat) (r3 : Nat) (r4 : Nat) (r5 : Nat
   let b := (GenV40.notMandatory b ([47, 85, 58] : List Nat) /- /U: -/ (GenV40.get_core r25 r26 r27 r28 r29 r30 r31 r32 r33 r34 r35 r36 r1 r37 r38 r39 r40 r41 r42 r43 r44 r45 r46 r47 r48 r49 r50 r51 r52 r53 r54 r24 ([85] : List Nat) /- U -/))
   b
 
+/-- capacity argument of the `make` in Vector -/
+def Vector_cap_core (r0 : Nat) (r1 : Nat) (r2 : Nat) (r3 : Nat) (r4 : Nat) (r5 : Nat) (r6 : Nat) (r7 : Nat) (r8 : Nat) (r9 : Nat) (r10 : Nat) (r11 : Nat) (r12 : Nat) (r13 : Nat) (r14 : Nat) (r15 : Nat) (r16 : Nat) (r17 : Nat) (r18 : Nat) (r19 : Nat) (r20 : Nat) (r21 : Nat) (r22 : Nat) (r23 : Nat) (r24 : Nat) (r25 : Nat) (r26 : Nat) (r27 : Nat) (r28 : Nat) (r29 : Nat) (r30 : Nat) (r31 : Nat) (r32 : Nat) (r33 : Nat) (r34 : Nat) (r35 : Nat) (r36 : Nat) (r37 : Nat) (r38 : Nat) (r39 : Nat) (r40 : Nat) (r41 : Nat) (r42 : Nat) (r43 : Nat) (r44 : Nat) (r45 : Nat) (r46 : Nat) (r47 : Nat) (r48 : Nat) (r49 : Nat) (r50 : Nat) (r51 : Nat) (r52 : Nat) (r53 : Nat) (r54 : Nat) : Nat :=
+  F64.flet (GenV40.lenVec_core r0 r1 r2 r3 r4 r5 r6 r7 r8 r9 r10 r11 r12 r13 r14 r15 r16 r17 r18 r19 r20 r21 r22 r23 r24) fun l =>
+  l
+
 def Vector (u0 : Nat) (u1 : Nat) (u2 : Nat) (u3 : Nat) (u4 : Nat) (u5 : Nat) (u6 : Nat) (u7 : Nat) (u8 : Nat) : (List Nat) :=
   Vector_core (Nat.land u2 (12 : Nat)) (Nat.land u2 (3 : Nat)) (Nat.land u3 (192 : Nat)) (Nat.land u3 (48 : Nat)) (Nat.land u3 (14 : Nat)) (Nat.land u3 (1 : Nat)) (Nat.land u4 (128 : Nat)) (Nat.land u4 (96 : Nat)) (Nat.land u4 (24 : Nat)) (Nat.land u4 (6 : Nat)) (Nat.land u4 (1 : Nat)) (Nat.land u5 (128 : Nat)) (Nat.land u5 (96 : Nat)) (Nat.land u5 (24 : Nat)) (Nat.land u5 (6 : Nat)) (Nat.land u5 (1 : Nat)) (Nat.land u6 (192 : Nat)) (Nat.land u6 (56 : Nat)) (Nat.land u6 (6 : Nat)) (Nat.land u6 (1 : Nat)) (Nat.land u7 (128 : Nat)) (Nat.land u7 (96 : Nat)) (Nat.land u7 (24 : Nat)) (Nat.land u7 (6 : Nat)) (Nat.lor (Nat.mod (Nat.shiftLeft (Nat.land u7 (1 : Nat)) (2 : Nat)) 256) (Nat.shiftRight (Nat.land u8 (192 : Nat)) (6 : Nat))) (Nat.shiftRight (Nat.land u0 (192 : Nat)) (6 : Nat)) (Nat.shiftRight (Nat.land u0 (32 : Nat)) (5 : Nat)) (Nat.shiftRight (Nat.land u0 (16 : Nat)) (4 : Nat)) (Nat.shiftRight (Nat.land u0 (12 : Nat)) (2 : Nat)) (Nat.land u0 (3 : Nat)) (Nat.shiftRight (Nat.land u1 (192 : Nat)) (6 : Nat)) (Nat.shiftRight (Nat.land u1 (48 : Nat)) (4 : Nat)) (Nat.shiftRight (Nat.land u1 (12 : Nat)) (2 : Nat)) (Nat.land u1 (3 : Nat)) (Nat.shiftRight (Nat.land u2 (192 : Nat)) (6 : Nat)) (Nat.shiftRight (Nat.land u2 (48 : Nat)) (4 : Nat)) (Nat.shiftRight (Nat.land u2 (12 : Nat)) (2 : Nat)) (Nat.shiftRight (Nat.land u3 (192 : Nat)) (6 : Nat)) (Nat.shiftRight (Nat.land u3 (48 : Nat)) (4 : Nat)) (Nat.shiftRight (Nat.land u3 (14 : Nat)) (1 : Nat)) (Nat.lor (Nat.mod (Nat.shiftLeft (Nat.land u3 (1 : Nat)) (1 : Nat)) 256) (Nat.shiftRight (Nat.land u4 (128 : Nat)) (7 : Nat))) (Nat.shiftRight (Nat.land u4 (96 : Nat)) (5 : Nat)) (Nat.shiftRight (Nat.land u4 (24 : Nat)) (3 : Nat)) (Nat.shiftRight (Nat.land u4 (6 : Nat)) (1 : Nat)) (Nat.lor (Nat.mod (Nat.shiftLeft (Nat.land u4 (1 : Nat)) (1 : Nat)) 256) (Nat.shiftRight (Nat.land u5 (128 : Nat)) (7 : Nat))) (Nat.shiftRight (Nat.land u5 (96 : Nat)) (5 : Nat)) (Nat.shiftRight (Nat.land u5 (24 : Nat)) (3 : Nat)) (Nat.shiftRight (Nat.land u5 (6 : Nat)) (1 : Nat)) (Nat.lor (Nat.mod (Nat.shiftLeft (Nat.land u5 (1 : Nat)) (2 : Nat)) 256) (Nat.shiftRight (Nat.land u6 (192 : Nat)) (6 : Nat))) (Nat.shiftRight (Nat.land u6 (56 : Nat)) (3 : Nat)) (Nat.shiftRight (Nat.land u6 (6 : Nat)) (1 : Nat)) (Nat.lor (Nat.mod (Nat.shiftLeft (Nat.land u6 (1 : Nat)) (1 : Nat)) 256) (Nat.shiftRight (Nat.land u7 (128 : Nat)) (7 : Nat))) (Nat.shiftRight (Nat.land u7 (96 : Nat)) (5 : Nat)) (Nat.shiftRight (Nat.land u7 (24 : Nat)) (3 : Nat)) (Nat.shiftRight (Nat.land u7 (6 : Nat)) (1 : Nat))
 
-/-- mod  (/repo/40/cvss40.go:1172:1) -/
+def Vector_cap (u0 : Nat) (u1 : Nat) (u2 : Nat) (u3 : Nat) (u4 : Nat) (u5 : Nat) (u6 : Nat) (u7 : Nat) (u8 : Nat) : Nat :=
+  Vector_cap_core (Nat.land u2 (12 : Nat)) (Nat.land u2 (3 : Nat)) (Nat.land u3 (192 : Nat)) (Nat.land u3 (48 : Nat)) (Nat.land u3 (14 : Nat)) (Nat.land u3 (1 : Nat)) (Nat.land u4 (128 : Nat)) (Nat.land u4 (96 : Nat)) (Nat.land u4 (24 : Nat)) (Nat.land u4 (6 : Nat)) (Nat.land u4 (1 : Nat)) (Nat.land u5 (128 : Nat)) (Nat.land u5 (96 : Nat)) (Nat.land u5 (24 : Nat)) (Nat.land u5 (6 : Nat)) (Nat.land u5 (1 : Nat)) (Nat.land u6 (192 : Nat)) (Nat.land u6 (56 : Nat)) (Nat.land u6 (6 : Nat)) (Nat.land u6 (1 : Nat)) (Nat.land u7 (128 : Nat)) (Nat.land u7 (96 : Nat)) (Nat.land u7 (24 : Nat)) (Nat.land u7 (6 : Nat)) (Nat.lor (Nat.mod (Nat.shiftLeft (Nat.land u7 (1 : Nat)) (2 : Nat)) 256) (Nat.shiftRight (Nat.land u8 (192 : Nat)) (6 : Nat))) (Nat.shiftRight (Nat.land u0 (192 : Nat)) (6 : Nat)) (Nat.shiftRight (Nat.land u0 (32 : Nat)) (5 : Nat)) (Nat.shiftRight (Nat.land u0 (16 : Nat)) (4 : Nat)) (Nat.shiftRight (Nat.land u0 (12 : Nat)) (2 : Nat)) (Nat.land u0 (3 : Nat)) (Nat.shiftRight (Nat.land u1 (192 : Nat)) (6 : Nat)) (Nat.shiftRight (Nat.land u1 (48 : Nat)) (4 : Nat)) (Nat.shiftRight (Nat.land u1 (12 : Nat)) (2 : Nat)) (Nat.land u1 (3 : Nat)) (Nat.shiftRight (Nat.land u2 (192 : Nat)) (6 : Nat)) (Nat.shiftRight (Nat.land u2 (48 : Nat)) (4 : Nat)) (Nat.shiftRight (Nat.land u2 (12 : Nat)) (2 : Nat)) (Nat.shiftRight (Nat.land u3 (192 : Nat)) (6 : Nat)) (Nat.shiftRight (Nat.land u3 (48 : Nat)) (4 : Nat)) (Nat.shiftRight (Nat.land u3 (14 : Nat)) (1 : Nat)) (Nat.lor (Nat.mod (Nat.shiftLeft (Nat.land u3 (1 : Nat)) (1 : Nat)) 256) (Nat.shiftRight (Nat.land u4 (128 : Nat)) (7 : Nat))) (Nat.shiftRight (Nat.land u4 (96 : Nat)) (5 : Nat)) (Nat.shiftRight (Nat.land u4 (24 : Nat)) (3 : Nat)) (Nat.shiftRight (Nat.land u4 (6 : Nat)) (1 : Nat)) (Nat.lor (Nat.mod (Nat.shiftLeft (Nat.land u4 (1 : Nat)) (1 : Nat)) 256) (Nat.shiftRight (Nat.land u5 (128 : Nat)) (7 : Nat))) (Nat.shiftRight (Nat.land u5 (96 : Nat)) (5 : Nat)) (Nat.shiftRight (Nat.land u5 (24 : Nat)) (3 : Nat)) (Nat.shiftRight (Nat.land u5 (6 : Nat)) (1 : Nat)) (Nat.lor (Nat.mod (Nat.shiftLeft (Nat.land u5 (1 : Nat)) (2 : Nat)) 256) (Nat.shiftRight (Nat.land u6 (192 : Nat)) (6 : Nat))) (Nat.shiftRight (Nat.land u6 (56 : Nat)) (3 : Nat)) (Nat.shiftRight (Nat.land u6 (6 : Nat)) (1 : Nat)) (Nat.lor (Nat.mod (Nat.shiftLeft (Nat.land u6 (1 : Nat)) (1 : Nat)) 256) (Nat.shiftRight (Nat.land u7 (128 : Nat)) (7 : Nat))) (Nat.shiftRight (Nat.land u7 (96 : Nat)) (5 : Nat)) (Nat.shiftRight (Nat.land u7 (24 : Nat)) (3 : Nat)) (Nat.shiftRight (Nat.land u7 (6 : Nat)) (1 : Nat))
+
+/-- mod  (cvss40.go) -/
 def mod_ (base : Nat) (modified : Nat) : Nat :=
   cond (!(Nat.beq modified (0 : Nat)))
     ((Nat.mod (Nat.sub (Nat.add modified 256) (1 : Nat)) 256))
     (base)
 
-/-- macroVector  (/repo/40/cvss40.go:1090:1) -/
---   r0 := (cvss40.u0 & 0b11000000) >> 6
---   r1 := (cvss40.u3 & 0b00001110) >> 1
---   r2 := (cvss40.u0 & 0b00100000) >> 5
---   r3 := ((cvss40.u3 & 0b00000001) << 1) | ((cvss40.u4 & 0b10000000) >> 7)
---   r4 := (cvss40.u0 & 0b00010000) >> 4
---   r5 := (cvss40.u4 & 0b01100000) >> 5
---   r6 := (cvss40.u0 & 0b00001100) >> 2
---   r7 := (cvss40.u4 & 0b00011000) >> 3
---   r8 := cvss40.u0 & 0b00000011
---   r9 := (cvss40.u4 & 0b00000110) >> 1
---   r10 := (cvss40.u1 & 0b11000000) >> 6
---   r11 := ((cvss40.u4 & 0b00000001) << 1) | ((cvss40.u5 & 0b10000000) >> 7)
---   r12 := (cvss40.u1 & 0b00110000) >> 4
---   r13 := (cvss40.u5 & 0b00000110) >> 1
---   r14 := (cvss40.u1 & 0b00001100) >> 2
---   r15 := (cvss40.u5 & 0b01100000) >> 5
---   r16 := ((cvss40.u5 & 0b00000001) << 2) | ((cvss40.u6 & 0b11000000) >> 6)
---   r17 := cvss40.u1 & 0b00000011
---   r18 := (cvss40.u2 & 0b11000000) >> 6
---   r19 := (cvss40.u5 & 0b00011000) >> 3
---   r20 := (cvss40.u6 & 0b00111000) >> 3
---   r21 := (cvss40.u2 & 0b00110000) >> 4
---   r22 := (cvss40.u2 & 0b00001100) >> 2
---   r23 := cvss40.u2 & 0b00000011
---   r24 := (cvss40.u3 & 0b11000000) >> 6
---   r25 := (cvss40.u3 & 0b00110000) >> 4
+/-- macroVector  (cvss40.go) -/
+--   r0 := (Nat.shiftRight (Nat.land u0 (192 : Nat)) (6 : Nat))
+--   r1 := (Nat.shiftRight (Nat.land u3 (14 : Nat)) (1 : Nat))
+--   r2 := (Nat.shiftRight (Nat.land u0 (32 : Nat)) (5 : Nat))
+--   r3 := (Nat.lor (Nat.mod (Nat.shiftLeft (Nat.land u3 (1 : Nat)) (1 : Nat)) 256) (Nat.shiftRight (Nat.land u4 (128 : Nat)) (7 : Nat)))
+--   r4 := (Nat.shiftRight (Nat.land u0 (16 : Nat)) (4 : Nat))
+--   r5 := (Nat.shiftRight (Nat.land u4 (96 : Nat)) (5 : Nat))
+--   r6 := (Nat.shiftRight (Nat.land u0 (12 : Nat)) (2 : Nat))
+--   r7 := (Nat.shiftRight (Nat.land u4 (24 : Nat)) (3 : Nat))
+--   r8 := (Nat.land u0 (3 : Nat))
+--   r9 := (Nat.shiftRight (Nat.land u4 (6 : Nat)) (1 : Nat))
+--   r10 := (Nat.shiftRight (Nat.land u1 (192 : Nat)) (6 : Nat))
+--   r11 := (Nat.lor (Nat.mod (Nat.shiftLeft (Nat.land u4 (1 : Nat)) (1 : Nat)) 256) (Nat.shiftRight (Nat.land u5 (128 : Nat)) (7 : Nat)))
+--   r12 := (Nat.shiftRight (Nat.land u1 (48 : Nat)) (4 : Nat))
+--   r13 := (Nat.shiftRight (Nat.land u5 (6 : Nat)) (1 : Nat))
+--   r14 := (Nat.shiftRight (Nat.land u1 (12 : Nat)) (2 : Nat))
+--   r15 := (Nat.shiftRight (Nat.land u5 (96 : Nat)) (5 : Nat))
+--   r16 := (Nat.lor (Nat.mod (Nat.shiftLeft (Nat.land u5 (1 : Nat)) (2 : Nat)) 256) (Nat.shiftRight (Nat.land u6 (192 : Nat)) (6 : Nat)))
+--   r17 := (Nat.land u1 (3 : Nat))
+--   r18 := (Nat.shiftRight (Nat.land u2 (192 : Nat)) (6 : Nat))
+--   r19 := (Nat.shiftRight (Nat.land u5 (24 : Nat)) (3 : Nat))
+--   r20 := (Nat.shiftRight (Nat.land u6 (56 : Nat)) (3 : Nat))
+--   r21 := (Nat.shiftRight (Nat.land u2 (48 : Nat)) (4 : Nat))
+--   r22 := (Nat.shiftRight (Nat.land u2 (12 : Nat)) (2 : Nat))
+--   r23 := (Nat.land u2 (3 : Nat))
+--   r24 := (Nat.shiftRight (Nat.land u3 (192 : Nat)) (6 : Nat))
+--   r25 := (Nat.shiftRight (Nat.land u3 (48 : Nat)) (4 : Nat))
 def macroVector_core (r0 : Nat) (r1 : Nat) (r2 : Nat) (r3 : Nat) (r4 : Nat) (r5 : Nat) (r6 : Nat) (r7 : Nat) (r8 : Nat) (r9 : Nat) (r10 : Nat) (r11 : Nat) (r12 : Nat) (r13 : Nat) (r14 : Nat) (r15 : Nat) (r16 : Nat) (r17 : Nat) (r18 : Nat) (r19 : Nat) (r20 : Nat) (r21 : Nat) (r22 : Nat) (r23 : Nat) (r24 : Nat) (r25 : Nat) : (Nat × Nat × Nat × Nat × Nat × Nat) :=
   F64.flet (GenV40.mod_ r0 r1) fun av =>
   F64.flet (GenV40.mod_ r2 r3) fun ac =>
@@ -1165,7 +1173,7 @@ def macroVector_core (r0 : Nat) (r1 : Nat) (r2 : Nat) (r3 : Nat) (r4 : Nat) (r5 
 def macroVector (u0 : Nat) (u1 : Nat) (u2 : Nat) (u3 : Nat) (u4 : Nat) (u5 : Nat) (u6 : Nat) (u7 : Nat) (u8 : Nat) : (Nat × Nat × Nat × Nat × Nat × Nat) :=
   macroVector_core (Nat.shiftRight (Nat.land u0 (192 : Nat)) (6 : Nat)) (Nat.shiftRight (Nat.land u3 (14 : Nat)) (1 : Nat)) (Nat.shiftRight (Nat.land u0 (32 : Nat)) (5 : Nat)) (Nat.lor (Nat.mod (Nat.shiftLeft (Nat.land u3 (1 : Nat)) (1 : Nat)) 256) (Nat.shiftRight (Nat.land u4 (128 : Nat)) (7 : Nat))) (Nat.shiftRight (Nat.land u0 (16 : Nat)) (4 : Nat)) (Nat.shiftRight (Nat.land u4 (96 : Nat)) (5 : Nat)) (Nat.shiftRight (Nat.land u0 (12 : Nat)) (2 : Nat)) (Nat.shiftRight (Nat.land u4 (24 : Nat)) (3 : Nat)) (Nat.land u0 (3 : Nat)) (Nat.shiftRight (Nat.land u4 (6 : Nat)) (1 : Nat)) (Nat.shiftRight (Nat.land u1 (192 : Nat)) (6 : Nat)) (Nat.lor (Nat.mod (Nat.shiftLeft (Nat.land u4 (1 : Nat)) (1 : Nat)) 256) (Nat.shiftRight (Nat.land u5 (128 : Nat)) (7 : Nat))) (Nat.shiftRight (Nat.land u1 (48 : Nat)) (4 : Nat)) (Nat.shiftRight (Nat.land u5 (6 : Nat)) (1 : Nat)) (Nat.shiftRight (Nat.land u1 (12 : Nat)) (2 : Nat)) (Nat.shiftRight (Nat.land u5 (96 : Nat)) (5 : Nat)) (Nat.lor (Nat.mod (Nat.shiftLeft (Nat.land u5 (1 : Nat)) (2 : Nat)) 256) (Nat.shiftRight (Nat.land u6 (192 : Nat)) (6 : Nat))) (Nat.land u1 (3 : Nat)) (Nat.shiftRight (Nat.land u2 (192 : Nat)) (6 : Nat)) (Nat.shiftRight (Nat.land u5 (24 : Nat)) (3 : Nat)) (Nat.shiftRight (Nat.land u6 (56 : Nat)) (3 : Nat)) (Nat.shiftRight (Nat.land u2 (48 : Nat)) (4 : Nat)) (Nat.shiftRight (Nat.land u2 (12 : Nat)) (2 : Nat)) (Nat.land u2 (3 : Nat)) (Nat.shiftRight (Nat.land u3 (192 : Nat)) (6 : Nat)) (Nat.shiftRight (Nat.land u3 (48 : Nat)) (4 : Nat))
 
-/-- lookupMV  (/repo/40/lookup.go:13:1) -/
+/-- lookupMV  (lookup.go) -/
 def lookupMV (eq1 : Nat) (eq2 : Nat) (eq3 : Nat) (eq4 : Nat) (eq5 : Nat) (eq6 : Nat) : Nat :=
   cond ((Nat.beq eq1 (0 : Nat)))
     (cond ((Nat.beq eq2 (1 : Nat)))
@@ -2195,17 +2203,17 @@ def lookupMV (eq1 : Nat) (eq2 : Nat) (eq3 : Nat) (eq4 : Nat) (eq5 : Nat) (eq6 : 
      ((0x7FF8DEAD00000000 : Nat))))
    ((0x7FF8DEAD00000000 : Nat))))
 
-/-- abs  (/repo/40/cvss40.go:1181:1) -/
+/-- abs  (cvss40.go) -/
 def abs_ (x : Nat) : Nat :=
   cond (F64.lt x (0x0000000000000000 : Nat))
     ((F64.neg x))
     (x)
 
-/-- table sevIdx (/repo/40/severity.go:8:2) -/
+/-- table sevIdx (severity.go) -/
 def tbl_sevIdx : (List (List Nat)) :=
   [[0, 1, 2, 3], [1, 0], [0, 1], [2, 1, 0], [0, 1, 2], [0, 1, 2], [0, 1, 2], [0, 1, 2], [0, 1, 2], [3, 0, 1, 2], [3, 0, 1, 2], [1, 2, 3], [1, 2, 3], [1, 2, 3], [1, 2, 3]]
 
-/-- index  (/repo/40/severity.go:37:1) -/
+/-- index  (severity.go) -/
 def index_ (slc : (List Nat)) (val : Nat) : Nat :=
   F64.flet (0x0000000000000000 : Nat) fun i =>
   match Go.forRange slc i (fun v i =>
@@ -2218,20 +2226,20 @@ def index_ (slc : (List Nat)) (val : Nat) : Nat :=
   | Go.Ctl.next i =>
   (0x7FF8DEAD00000000 : Nat)
 
-/-- severityDistance  (/repo/40/severity.go:32:1) -/
+/-- severityDistance  (severity.go) -/
 def severityDistance (metric : Nat) (vecVal : Nat) (mxVal : Nat) : Nat :=
   let values := (Go.idx GenV40.tbl_sevIdx metric)
   (F64.sub (GenV40.index_ values vecVal) (GenV40.index_ values mxVal))
 
-/-- table highestSeverityVectors (/repo/40/max.go:6:5) -/
+/-- table highestSeverityVectors (max.go) -/
 def tbl_highestSeverityVectors : (List (List (List Nat))) :=
   [[], [[20], [120, 10, 21], [320, 111]], [[10], [11, 0]], [], [[33], [0], [111]], [[1], [2], [3]]]
 
-/-- table highestSeverityVectorsEQ3EQ6 (/repo/40/max.go:43:5) -/
+/-- table highestSeverityVectorsEQ3EQ6 (max.go) -/
 def tbl_highestSeverityVectorsEQ3EQ6 : (List (List (List Nat))) :=
   [[[111], [1221, 222]], [[100111, 10111], [10212, 11211, 100122, 101121, 110112]], [[], [111111]]]
 
-/-- getDepth  (/repo/40/depth.go:3:1) -/
+/-- getDepth  (depth.go) -/
 def getDepth (eq : Nat) (level : Nat) : Nat :=
   cond ((Nat.beq eq (1 : Nat)))
     (cond ((Nat.beq level (0 : Nat)))
@@ -2259,7 +2267,7 @@ def getDepth (eq : Nat) (level : Nat) : Nat :=
     ((0x0000000000000000 : Nat))
    ((0x7FF8DEAD00000000 : Nat)))))
 
-/-- getDepthEQ3EQ6  (/repo/40/depth.go:38:1) -/
+/-- getDepthEQ3EQ6  (depth.go) -/
 def getDepthEQ3EQ6 (leveleq3 : Nat) (leveleq6 : Nat) : Nat :=
   cond ((Nat.beq leveleq3 (0 : Nat)))
     (cond ((Nat.beq leveleq6 (0 : Nat)))
@@ -2273,37 +2281,37 @@ def getDepthEQ3EQ6 (leveleq3 : Nat) (leveleq6 : Nat) : Nat :=
     ((0x4022000000000000 : Nat))
    ((0x7FF8DEAD00000000 : Nat))))
 
-/-- roundup  (/repo/40/cvss40.go:1188:1) -/
+/-- roundup  (cvss40.go) -/
 def roundup (x : Nat) : Nat :=
   (F64.div (F64.round (F64.mul (F64.add x (0x3eb0c6f7a0b5ed8d : Nat)) (0x4024000000000000 : Nat))) (0x4024000000000000 : Nat))
 
-/-- Score  (/repo/40/cvss40.go:891:1) -/
---   r0 := (cvss40.u0 & 0b11000000) >> 6
---   r1 := (cvss40.u3 & 0b00001110) >> 1
---   r2 := (cvss40.u0 & 0b00100000) >> 5
---   r3 := ((cvss40.u3 & 0b00000001) << 1) | ((cvss40.u4 & 0b10000000) >> 7)
---   r4 := (cvss40.u0 & 0b00010000) >> 4
---   r5 := (cvss40.u4 & 0b01100000) >> 5
---   r6 := (cvss40.u0 & 0b00001100) >> 2
---   r7 := (cvss40.u4 & 0b00011000) >> 3
---   r8 := cvss40.u0 & 0b00000011
---   r9 := (cvss40.u4 & 0b00000110) >> 1
---   r10 := (cvss40.u1 & 0b11000000) >> 6
---   r11 := ((cvss40.u4 & 0b00000001) << 1) | ((cvss40.u5 & 0b10000000) >> 7)
---   r12 := (cvss40.u1 & 0b00110000) >> 4
---   r13 := (cvss40.u5 & 0b00000110) >> 1
---   r14 := (cvss40.u1 & 0b00001100) >> 2
---   r15 := (cvss40.u5 & 0b01100000) >> 5
---   r16 := cvss40.u1 & 0b00000011
---   r17 := ((cvss40.u5 & 0b00000001) << 2) | ((cvss40.u6 & 0b11000000) >> 6)
---   r18 := (cvss40.u2 & 0b11000000) >> 6
---   r19 := (cvss40.u5 & 0b00011000) >> 3
---   r20 := (cvss40.u2 & 0b00110000) >> 4
---   r21 := (cvss40.u6 & 0b00111000) >> 3
---   r22 := cvss40.u2 & 0b00000011
---   r23 := (cvss40.u3 & 0b11000000) >> 6
---   r24 := (cvss40.u3 & 0b00110000) >> 4
---   r25 := (cvss40.u2 & 0b00001100) >> 2
+/-- Score  (cvss40.go) -/
+--   r0 := (Nat.shiftRight (Nat.land u0 (192 : Nat)) (6 : Nat))
+--   r1 := (Nat.shiftRight (Nat.land u3 (14 : Nat)) (1 : Nat))
+--   r2 := (Nat.shiftRight (Nat.land u0 (32 : Nat)) (5 : Nat))
+--   r3 := (Nat.lor (Nat.mod (Nat.shiftLeft (Nat.land u3 (1 : Nat)) (1 : Nat)) 256) (Nat.shiftRight (Nat.land u4 (128 : Nat)) (7 : Nat)))
+--   r4 := (Nat.shiftRight (Nat.land u0 (16 : Nat)) (4 : Nat))
+--   r5 := (Nat.shiftRight (Nat.land u4 (96 : Nat)) (5 : Nat))
+--   r6 := (Nat.shiftRight (Nat.land u0 (12 : Nat)) (2 : Nat))
+--   r7 := (Nat.shiftRight (Nat.land u4 (24 : Nat)) (3 : Nat))
+--   r8 := (Nat.land u0 (3 : Nat))
+--   r9 := (Nat.shiftRight (Nat.land u4 (6 : Nat)) (1 : Nat))
+--   r10 := (Nat.shiftRight (Nat.land u1 (192 : Nat)) (6 : Nat))
+--   r11 := (Nat.lor (Nat.mod (Nat.shiftLeft (Nat.land u4 (1 : Nat)) (1 : Nat)) 256) (Nat.shiftRight (Nat.land u5 (128 : Nat)) (7 : Nat)))
+--   r12 := (Nat.shiftRight (Nat.land u1 (48 : Nat)) (4 : Nat))
+--   r13 := (Nat.shiftRight (Nat.land u5 (6 : Nat)) (1 : Nat))
+--   r14 := (Nat.shiftRight (Nat.land u1 (12 : Nat)) (2 : Nat))
+--   r15 := (Nat.shiftRight (Nat.land u5 (96 : Nat)) (5 : Nat))
+--   r16 := (Nat.land u1 (3 : Nat))
+--   r17 := (Nat.lor (Nat.mod (Nat.shiftLeft (Nat.land u5 (1 : Nat)) (2 : Nat)) 256) (Nat.shiftRight (Nat.land u6 (192 : Nat)) (6 : Nat)))
+--   r18 := (Nat.shiftRight (Nat.land u2 (192 : Nat)) (6 : Nat))
+--   r19 := (Nat.shiftRight (Nat.land u5 (24 : Nat)) (3 : Nat))
+--   r20 := (Nat.shiftRight (Nat.land u2 (48 : Nat)) (4 : Nat))
+--   r21 := (Nat.shiftRight (Nat.land u6 (56 : Nat)) (3 : Nat))
+--   r22 := (Nat.land u2 (3 : Nat))
+--   r23 := (Nat.shiftRight (Nat.land u3 (192 : Nat)) (6 : Nat))
+--   r24 := (Nat.shiftRight (Nat.land u3 (48 : Nat)) (4 : Nat))
+--   r25 := (Nat.shiftRight (Nat.land u2 (12 : Nat)) (2 : Nat))
 def Score_core (r0 : Nat) (r1 : Nat) (r2 : Nat) (r3 : Nat) (r4 : Nat) (r5 : Nat) (r6 : Nat) (r7 : Nat) (r8 : Nat) (r9 : Nat) (r10 : Nat) (r11 : Nat) (r12 : Nat) (r13 : Nat) (r14 : Nat) (r15 : Nat) (r16 : Nat) (r17 : Nat) (r18 : Nat) (r19 : Nat) (r20 : Nat) (r21 : Nat) (r22 : Nat) (r23 : Nat) (r24 : Nat) (r25 : Nat) : Nat :=
   F64.flet (GenV40.mod_ r0 r1) fun avVal =>
   F64.flet (GenV40.mod_ r2 r3) fun acVal =>
@@ -2510,13 +2518,13 @@ def Score_core (r0 : Nat) (r1 : Nat) (r2 : Nat) (r3 : Nat) (r4 : Nat) (r5 : Nat)
 def Score (u0 : Nat) (u1 : Nat) (u2 : Nat) (u3 : Nat) (u4 : Nat) (u5 : Nat) (u6 : Nat) (u7 : Nat) (u8 : Nat) : Nat :=
   Score_core (Nat.shiftRight (Nat.land u0 (192 : Nat)) (6 : Nat)) (Nat.shiftRight (Nat.land u3 (14 : Nat)) (1 : Nat)) (Nat.shiftRight (Nat.land u0 (32 : Nat)) (5 : Nat)) (Nat.lor (Nat.mod (Nat.shiftLeft (Nat.land u3 (1 : Nat)) (1 : Nat)) 256) (Nat.shiftRight (Nat.land u4 (128 : Nat)) (7 : Nat))) (Nat.shiftRight (Nat.land u0 (16 : Nat)) (4 : Nat)) (Nat.shiftRight (Nat.land u4 (96 : Nat)) (5 : Nat)) (Nat.shiftRight (Nat.land u0 (12 : Nat)) (2 : Nat)) (Nat.shiftRight (Nat.land u4 (24 : Nat)) (3 : Nat)) (Nat.land u0 (3 : Nat)) (Nat.shiftRight (Nat.land u4 (6 : Nat)) (1 : Nat)) (Nat.shiftRight (Nat.land u1 (192 : Nat)) (6 : Nat)) (Nat.lor (Nat.mod (Nat.shiftLeft (Nat.land u4 (1 : Nat)) (1 : Nat)) 256) (Nat.shiftRight (Nat.land u5 (128 : Nat)) (7 : Nat))) (Nat.shiftRight (Nat.land u1 (48 : Nat)) (4 : Nat)) (Nat.shiftRight (Nat.land u5 (6 : Nat)) (1 : Nat)) (Nat.shiftRight (Nat.land u1 (12 : Nat)) (2 : Nat)) (Nat.shiftRight (Nat.land u5 (96 : Nat)) (5 : Nat)) (Nat.land u1 (3 : Nat)) (Nat.lor (Nat.mod (Nat.shiftLeft (Nat.land u5 (1 : Nat)) (2 : Nat)) 256) (Nat.shiftRight (Nat.land u6 (192 : Nat)) (6 : Nat))) (Nat.shiftRight (Nat.land u2 (192 : Nat)) (6 : Nat)) (Nat.shiftRight (Nat.land u5 (24 : Nat)) (3 : Nat)) (Nat.shiftRight (Nat.land u2 (48 : Nat)) (4 : Nat)) (Nat.shiftRight (Nat.land u6 (56 : Nat)) (3 : Nat)) (Nat.land u2 (3 : Nat)) (Nat.shiftRight (Nat.land u3 (192 : Nat)) (6 : Nat)) (Nat.shiftRight (Nat.land u3 (48 : Nat)) (4 : Nat)) (Nat.shiftRight (Nat.land u2 (12 : Nat)) (2 : Nat))
 
-/-- Nomenclature  (/repo/40/cvss40.go:1197:1) -/
---   r0 := cvss40.u2 & 0b00001100
---   r1 := cvss40.u2 & 0b00000011
---   r2 := cvss40.u3
---   r3 := cvss40.u4
---   r4 := cvss40.u5
---   r5 := cvss40.u6 & 0b11111000
+/-- Nomenclature  (cvss40.go) -/
+--   r0 := (Nat.land u2 (12 : Nat))
+--   r1 := (Nat.land u2 (3 : Nat))
+--   r2 := u3
+--   r3 := u4
+--   r4 := u5
+--   r5 := (Nat.land u6 (248 : Nat))
 def Nomenclature_core (r0 : Nat) (r1 : Nat) (r2 : Nat) (r3 : Nat) (r4 : Nat) (r5 : Nat) : (List Nat) :=
   let t := (!(Nat.beq r0 (0 : Nat)))
   let e_ := (((((!(Nat.beq r1 (0 : Nat))) || (!(Nat.beq r2 (0 : Nat)))) || (!(Nat.beq r3 (0 : Nat)))) || (!(Nat.beq r4 (0 : Nat)))) || (!(Nat.beq r5 (0 : Nat))))
@@ -2531,7 +2539,7 @@ def Nomenclature_core (r0 : Nat) (r1 : Nat) (r2 : Nat) (r3 : Nat) (r4 : Nat) (r5
 def Nomenclature (u0 : Nat) (u1 : Nat) (u2 : Nat) (u3 : Nat) (u4 : Nat) (u5 : Nat) (u6 : Nat) (u7 : Nat) (u8 : Nat) : (List Nat) :=
   Nomenclature_core (Nat.land u2 (12 : Nat)) (Nat.land u2 (3 : Nat)) u3 u4 u5 (Nat.land u6 (248 : Nat))
 
-/-- Rating  (/repo/40/cvss40.go:1220:1) -/
+/-- Rating  (cvss40.go) -/
 def Rating (score : Nat) : ((List Nat) × Go.Err) :=
   cond ((F64.lt score (0x0000000000000000 : Nat)) || (F64.lt (0x4024000000000000 : Nat) score))
     ((([] : List Nat) /-  -/, (Go.Err.mk 5 []) /- ErrOutOfBoundsScore -/))
@@ -2545,16 +2553,21 @@ def Rating (score : Nat) : ((List Nat) × Go.Err) :=
             ((([76, 79, 87] : List Nat) /- LOW -/, Go.errNil))
             ((([78, 79, 78, 69] : List Nat) /- NONE -/, Go.errNil))))))
 
-/-- table order (/repo/40/cvss40.go:16:2) -/
+/-- table order (cvss40.go) -/
 def tbl_order : (List (List (List Nat))) :=
   [[([65, 86] : List Nat), ([65, 67] : List Nat), ([65, 84] : List Nat), ([80, 82] : List Nat), ([85, 73] : List Nat), ([86, 67] : List Nat), ([86, 73] : List Nat), ([86, 65] : List Nat), ([83, 67] : List Nat), ([83, 73] : List Nat), ([83, 65] : List Nat)], [([69] : List Nat)], [([67, 82] : List Nat), ([73, 82] : List Nat), ([65, 82] : List Nat), ([77, 65, 86] : List Nat), ([77, 65, 67] : List Nat), ([77, 65, 84] : List Nat), ([77, 80, 82] : List Nat), ([77, 85, 73] : List Nat), ([77, 86, 67] : List Nat), ([77, 86, 73] : List Nat), ([77, 86, 65] : List Nat), ([77, 83, 67] : List Nat), ([77, 83, 73] : List Nat), ([77, 83, 65] : List Nat)], [([83] : List Nat), ([65, 85] : List Nat), ([82] : List Nat), ([86] : List Nat), ([82, 69] : List Nat), ([85] : List Nat)]]
 
-/-- constant header (/repo/40/cvss40.go:12:2) -/
+/-- constant header (cvss40.go) -/
 def const_header : List Nat :=
   ([67, 86, 83, 83, 58, 52, 46, 48] : List Nat)
 
-/-- sha256 of the printed source of ParseVector (/repo/40/cvss40.go:30:1) -/
-def srchash_ParseVector : String := "dfc7cca31e261b97"
+/-- fields of the object type (name:type), in declaration order -/
+def obj_fields : List String :=
+  ["u0:uint8", "u1:uint8", "u2:uint8", "u3:uint8", "u4:uint8", "u5:uint8", "u6:uint8", "u7:uint8", "u8:uint8"]
+
+/-- methods of the object type with a pointer receiver (the only ones that can change the object) -/
+def obj_ptr_methods : List String :=
+  ["Score", "Set"]
 
 /-- `init` functions of the package (file:init) -/
 def pkg_inits : List String :=
